@@ -937,6 +937,28 @@ def _key_components(facts, fn, depth=0):
     return comp(body, False)
 
 
+def rule_manifest_binder_group(ctx):
+    rule = "grammar-owned-parentheses"
+    facts = ctx.facts
+    fn = FORMATTER + "manifest_parameter"
+    h = ctx.need_hir(rule, fn)
+    if h is None:
+        return
+    env = A.ArmEnv(); env.strip = True; env.bind_params(h); env.absorb(h["body"])
+    ok = False
+    for m in H.walk(h["body"]):
+        if H.kind(m) != "Match" or m.get("src") or "transparent_pattern_group" not in A.sexpr(m["scrut"], env):
+            continue
+        for a in m["arms"]:
+            if any(v.endswith("Pattern::Named") for v in H.pat_variants(a["pat"])) and \
+                    any(H.kind(c) in ("Call", "MethodCall") and (H.callee(c) or "").endswith("::delimited") for c in H.walk(a["body"])):
+                ok = True
+    ctx.check(ok, rule, "manifest:named-binder-grouped", "manifest_parameter does not keep a group around a binder that is (through elided "
+              "groups) a named pattern: the parser pushes `as d : K` beneath an ungrouped `field = p`, so `((Counter = Representation) as "
+              "Int64 : VType)` printed without the inner parentheses is a different pattern (rejected before, accepted after formatting)",
+              facts.bodies()[fn]["loc"], detail={"kept for": "Pattern::Named behind transparent groups"})
+
+
 def rule_capture_anchors(ctx):
     rule = "capture-anchors"
     facts = ctx.facts
